@@ -10,9 +10,18 @@ git -C /repo log --format='%h %s' | grep ' fix: ' | while read h rest; do
   [ -n "$prop" ] || { echo "$h: no property mapped ($rest)"; continue; }
   wt=$(mktemp -d /tmp/rev-XXXXXX); rmdir "$wt"
   git -C /repo worktree add -q --detach "$wt" HEAD
-  if (cd "$wt" && git revert -n "$h" >/dev/null 2>&1); then
+  ok=0; also=""
+  if (cd "$wt" && git revert -n "$h" >/dev/null 2>&1); then ok=1
+  else
+    # later fixes touch the same lines: revert those first (newest first), then this one
+    (cd "$wt" && git revert --abort >/dev/null 2>&1; git reset -q --hard)
+    files=$(git -C /repo show --format= --name-only "$h")
+    later=$(git -C /repo log --format=%h "$h"..HEAD -- $files)
+    if (cd "$wt" && for l in $later; do git revert -n "$l" >/dev/null 2>&1 || exit 1; done && git revert -n "$h" >/dev/null 2>&1); then ok=1; also=" (together with later fixes on the same lines: $(echo $later))"; fi
+  fi
+  if [ $ok = 1 ]; then
     out=$(VERIF_REPO="$wt" VERIF_EVIDENCE_DIR="$wt/.ev" VERIF_REPLAYS_DIR="$wt/.rp" ./check "$prop" quick 2>&1); rc=$?
-    echo "$h $prop rc=$rc $(echo "$out" | grep -A1 '^VIOLATION' | sed -n 2p | cut -c1-150)  <- revert of: $rest"
+    echo "$h $prop rc=$rc $(echo "$out" | grep -A1 '^VIOLATION' | sed -n 2p | cut -c1-150)  <- revert of: $rest$also"
   else
     echo "$h $prop: revert does not apply cleanly (later fixes touch the same lines)  <- $rest"
   fi
